@@ -67,7 +67,8 @@ type ReverseSuffixSearcher struct {
 	pikevm         *nfa.PikeVM
 	suffixLen      int    // Length of the suffix literal for calculating revEnd
 	suffixBytes    []byte // Suffix literal bytes for FindLast optimization
-	matchStartZero bool   // True if pattern starts with .* (match always starts at 0)
+	matchStartZero bool   // True if pattern is exactly `.*suffix` (see NewReverseSuffixSearcher): no DFA needed
+	lineBounded    bool   // True if no match can contain '\n' (see SetLineBounded)
 	fwdCachePool   sync.Pool
 	revCachePool   sync.Pool
 }
@@ -83,6 +84,10 @@ type ReverseSuffixSearcher struct {
 //   - forwardNFA: the compiled forward NFA
 //   - suffixLiterals: extracted suffix literals from pattern
 //   - config: DFA configuration for reverse DFA cache
+//   - matchStartZero: the pattern is exactly a greedy `.*` (not matching '\n')
+//     followed by the suffix literal, see isDotStarLiteral. Matches of such a
+//     pattern are found with byte searches alone. It must be false for every
+//     other pattern, including `.*?suffix`, `(?s).*suffix` and `.*x+suffix`.
 //
 // Returns nil if reverse suffix optimization cannot be applied.
 func NewReverseSuffixSearcher(
@@ -108,6 +113,16 @@ func NewReverseSuffixSearcher(
 		// No prefilter available - cannot use this optimization
 		return nil, ErrNoPrefilter
 	}
+	if suffixLiterals.Len() > 1 {
+		// The searcher works with the COMMON suffix: every match ends with it, and a
+		// candidate at pos stands for a possible match end at pos+suffixLen. The
+		// individual literals may be longer ("a.txt" and "b.txt" for the common
+		// suffix ".txt") and a prefilter for them reports where THEY start.
+		pre = prefilter.NewBuilder(nil, literal.NewSeq(literal.NewLiteral(suffixBytes, false))).Build()
+		if pre == nil {
+			return nil, ErrNoPrefilter
+		}
+	}
 
 	// Build reverse NFA - unanchored (we need to match from any position backward)
 	// Unlike ReverseAnchored, we don't use ReverseAnchored() because we're not
@@ -132,9 +147,10 @@ func NewReverseSuffixSearcher(
 	// Create PikeVM for fallback
 	pikevm := nfa.NewPikeVM(forwardNFA)
 
-	// matchStartZero is true only when pattern has .* prefix (e.g., `.*\.txt`).
-	// Only OpStar(AnyChar) guarantees match starts at 0/at — skip reverse DFA.
-	// Other wildcards like .+, [^\s]+, \w{2,8} do NOT guarantee this.
+	// matchStartZero is true only when the pattern is exactly `.*suffix` (e.g., `.*\.txt`):
+	// the match starts at the beginning of the line and ends at the last suffix on it.
+	// Other patterns (.+, [^\s]+, \w{2,8}, .*?, or anything between .* and the suffix)
+	// are verified with the DFAs.
 	s := &ReverseSuffixSearcher{
 		forwardNFA:     forwardNFA,
 		reverseNFA:     reverseNFA,
@@ -155,215 +171,32 @@ func NewReverseSuffixSearcher(
 	return s, nil
 }
 
-// Find searches using suffix literal prefilter + reverse DFA and returns the match.
-//
-// Algorithm (find LAST suffix for greedy semantics):
-//  1. Use prefilter to find the LAST suffix literal candidate
-//  2. Use reverse DFA to find match START (leftmost)
-//  3. Return match immediately (no forward scan needed!)
-//
-// Why find LAST suffix?
-//   - Pattern `.*\.txt` is greedy - `.*` matches as much as possible
-//   - For input "a.txt.txt", the greedy match is the ENTIRE string [0:9]
-//   - Finding the LAST `.txt` (at position 5) and reverse scanning gives us this
-//   - No expensive forward DFA scan needed!
-//
-// Performance:
-//   - Single prefilter scan to find last suffix: O(n)
-//   - Single reverse DFA scan: O(n)
-//   - Total: O(n) with small constant
-//
-// Example:
-//
-//	Pattern: `.*\.txt`
-//	Haystack: "a.txt.txt"
-//	Suffix literal: `.txt`
-//
-//	1. Prefilter finds LAST `.txt` at position 5
-//	2. Reverse DFA from [0,9] finds match start = 0
-//	3. Return [0:9] = "a.txt.txt" (greedy!)
-func (s *ReverseSuffixSearcher) Find(haystack []byte) *Match {
-	if len(haystack) == 0 {
-		return nil
-	}
-
-	// For matchStartZero (unanchored .* prefix), match starts at the beginning
-	// of the line containing the LAST suffix — .* (AnyCharNotNL) cannot cross \n.
-	if s.matchStartZero {
-		lastPos := bytes.LastIndex(haystack, s.suffixBytes)
-		if lastPos == -1 {
-			return nil
-		}
-		revEnd := lastPos + s.suffixLen
-		if revEnd > len(haystack) {
-			revEnd = len(haystack)
-		}
-		matchStart := lineStartBefore(haystack, 0, lastPos)
-		return NewMatch(matchStart, revEnd, haystack)
-	}
-
-	// For bounded wildcards (e.g., \d+\.\d+\.35), find the FIRST suffix
-	// candidate for leftmost match semantics. LastIndex would give rightmost.
-	firstPos := bytes.Index(haystack, s.suffixBytes)
-	if firstPos == -1 {
-		return nil
-	}
-
-	// Acquire caches once for the entire candidate loop
-	revCache := s.revCachePool.Get().(*lazy.DFACache)
-	fwdCache := s.fwdCachePool.Get().(*lazy.DFACache)
-	defer s.revCachePool.Put(revCache)
-	defer s.fwdCachePool.Put(fwdCache)
-
-	// Try each suffix candidate left-to-right until we find a valid match.
-	// This ensures leftmost semantics for multi-wildcard patterns.
-	//
-	// Anti-quadratic guard (same as IsMatch/FindAt): once the candidate ending at
-	// minStart has been rejected, a later reverse scan that is still alive when it
-	// reaches minStart would re-read bytes an earlier scan already covered. With
-	// many false-positive candidates that is O(n^2), so SearchReverseLimited stops
-	// there and a single forward PikeVM search answers the whole query instead.
-	minStart := 0
-	pos := firstPos
-	for pos >= 0 && pos+s.suffixLen <= len(haystack) {
-		revEnd := pos + s.suffixLen
-
-		// Use reverse DFA to find match START position
-		matchStart := s.reverseDFA.SearchReverseLimited(revCache, haystack, 0, revEnd, minStart)
-		if matchStart == lazy.SearchReverseLimitedQuadratic {
-			start, end, found := s.pikevm.Search(haystack)
-			if found {
-				return NewMatch(start, end, haystack)
-			}
-			return nil
-		}
-		minStart = revEnd
-		if matchStart >= 0 {
-			// Forward verification: get correct greedy match end.
-			matchEnd := s.forwardDFA.SearchAt(fwdCache, haystack, matchStart)
-			if matchEnd >= 0 {
-				return NewMatch(matchStart, matchEnd, haystack)
-			}
-			// DFA failed — fallback to PikeVM
-			start, end, found := s.pikevm.SearchAt(haystack, matchStart)
-			if found {
-				return NewMatch(start, end, haystack)
-			}
-		}
-
-		// Try next suffix candidate
-		next := bytes.Index(haystack[pos+1:], s.suffixBytes)
-		if next == -1 {
-			break
-		}
-		pos = pos + 1 + next
-	}
-
-	// No valid match found
-	return nil
+// SetLineBounded tells the searcher that no match of the pattern can contain '\n'
+// (the pattern has no literal, class or (?s:.) that matches it). A match that
+// starts on one line then ends on the same line, so once the first line holding a
+// match end is known the search for the match start can be confined to that line.
+func (s *ReverseSuffixSearcher) SetLineBounded(lineBounded bool) {
+	s.lineBounded = lineBounded
 }
 
-// FindAt searches for a match starting from position 'at' using suffix prefilter + reverse DFA.
-//
-// Unlike Find() which returns the greedy (last suffix) match, FindAt returns the first
-// match starting at or after position 'at'. This is essential for FindAll iteration.
-//
-// Algorithm:
-//  1. Use prefilter to find suffix candidates >= at
-//  2. For each candidate, use reverse DFA to find match START (from 'at' position)
-//  3. Return first valid match [start, suffixEnd]
-//  4. Anti-quadratic guard (minStart) prevents re-scanning already-checked regions
-//
-// Performance:
-//   - Prefilter scan: O(n) from 'at' position
-//   - Reverse DFA verification: O(m) where m is match length
-//   - Anti-quadratic guard ensures total work across all candidates is O(n)
-func (s *ReverseSuffixSearcher) FindAt(haystack []byte, at int) *Match {
-	if at >= len(haystack) {
+// Find searches using suffix literal prefilter + reverse DFA and returns the
+// leftmost match, see FindIndicesAt.
+func (s *ReverseSuffixSearcher) Find(haystack []byte) *Match {
+	start, end, found := s.FindIndicesAt(haystack, 0)
+	if !found {
 		return nil
 	}
+	return NewMatch(start, end, haystack)
+}
 
-	searchStart := at
-	minStart := at // Anti-quadratic guard
-
-	// Acquire caches once for the entire candidate loop
-	revCache := s.revCachePool.Get().(*lazy.DFACache)
-	fwdCache := s.fwdCachePool.Get().(*lazy.DFACache)
-	defer s.revCachePool.Put(revCache)
-	defer s.fwdCachePool.Put(fwdCache)
-
-	for {
-		// Find next suffix candidate starting from searchStart
-		pos := s.prefilter.Find(haystack, searchStart)
-		if pos == -1 {
-			return nil
-		}
-
-		// Calculate suffix end position
-		suffixEnd := pos + s.suffixLen
-		if suffixEnd > len(haystack) {
-			suffixEnd = len(haystack)
-		}
-
-		// For unanchored patterns (like .*@suffix), .* cannot cross \n.
-		// Match starts at the beginning of the line containing 'pos'.
-		// For greedy semantics, find the LAST suffix on that line.
-		if s.matchStartZero {
-			// Find start of the line containing the suffix candidate
-			matchLineStart := lineStartBefore(haystack, at, pos)
-			// Find end of this line
-			lineEnd := bytes.IndexByte(haystack[pos:], '\n')
-			var lineEndAbs int
-			if lineEnd == -1 {
-				lineEndAbs = len(haystack)
-			} else {
-				lineEndAbs = pos + lineEnd
-			}
-			// Find LAST suffix on this line for greedy match
-			lastPos := bytes.LastIndex(haystack[matchLineStart:lineEndAbs], s.suffixBytes)
-			if lastPos >= 0 {
-				matchEnd := matchLineStart + lastPos + s.suffixLen
-				if matchEnd > len(haystack) {
-					matchEnd = len(haystack)
-				}
-				return NewMatch(matchLineStart, matchEnd, haystack)
-			}
-			return nil
-		}
-
-		// Use reverse DFA with anti-quadratic guard to find match START position
-		matchStart := s.reverseDFA.SearchReverseLimited(revCache, haystack, at, suffixEnd, minStart)
-		if matchStart >= 0 {
-			// Forward verification: get correct greedy match end (Issue #124)
-			matchEnd := s.forwardDFA.SearchAt(fwdCache, haystack, matchStart)
-			if matchEnd >= 0 {
-				return NewMatch(matchStart, matchEnd, haystack)
-			}
-			// DFA failed — fallback to PikeVM
-			fwdStart, fwdEnd, found := s.pikevm.SearchAt(haystack, matchStart)
-			if found {
-				return NewMatch(fwdStart, fwdEnd, haystack)
-			}
-			return nil
-		}
-		if matchStart == lazy.SearchReverseLimitedQuadratic {
-			// Quadratic behavior detected - fall back to PikeVM
-			start, end, found := s.pikevm.SearchAt(haystack, at)
-			if found {
-				return NewMatch(start, end, haystack)
-			}
-			return nil
-		}
-
-		// Update anti-quadratic guard
-		minStart = suffixEnd
-
-		// Try next candidate
-		searchStart = pos + 1
-		if searchStart >= len(haystack) {
-			return nil
-		}
+// FindAt searches for the leftmost match starting at or after position 'at',
+// see FindIndicesAt. This is essential for FindAll iteration.
+func (s *ReverseSuffixSearcher) FindAt(haystack []byte, at int) *Match {
+	start, end, found := s.FindIndicesAt(haystack, at)
+	if !found {
+		return nil
 	}
+	return NewMatch(start, end, haystack)
 }
 
 // FindIndicesAt returns match indices starting from position 'at' - zero allocation version.
@@ -386,16 +219,41 @@ func (s *ReverseSuffixSearcher) FindIndicesAtWithCaches(haystack []byte, at int,
 	return s.findIndicesAtImpl(haystack, at, fwdCache, revCache)
 }
 
-// findIndicesAtImpl is the shared implementation for FindIndicesAt and FindIndicesAtWithCaches.
+// findIndicesAtImpl is the shared implementation of Find, FindAt, FindIndicesAt
+// and FindIndicesAtWithCaches. It returns the leftmost-first match starting at or
+// after 'at', like every other engine.
+//
+// Algorithm:
+//  1. The prefilter finds suffix candidates left to right; every match ends with
+//     the suffix literal, so every match ends at the end of a candidate.
+//  2. For each candidate the reverse DFA, anchored at the candidate's end, decides
+//     whether a match ends there (anti-quadratic guard: minStart keeps the reverse
+//     scans from reading a byte twice).
+//  3. The first candidate that holds a match end proves that a match exists and
+//     that none ends earlier. It does NOT give the match: another match may start
+//     further left and end at a later candidate, and a greedy pattern extends past
+//     the first possible end. The DFAs of the whole pattern give the exact bounds:
+//     an unanchored forward search finds the end of the leftmost-first match, a
+//     reverse search from there its start.
+//
+// The forward search need not start at 'at': for patterns that cannot match '\n'
+// the match lies on the candidate's line (SetLineBounded). If the reverse scan of
+// step 2 already reached that lower bound, its result is the match start.
+//
+// Performance: the prefilter skips everything before the first real match end, and
+// the verification reads the line (or, for patterns that can match '\n', the
+// haystack from 'at') a constant number of times: O(n) for the search, and O(n)
+// for a whole FindAll iteration.
 func (s *ReverseSuffixSearcher) findIndicesAtImpl(haystack []byte, at int, fwdCache, revCache *lazy.DFACache) (start, end int, found bool) {
 	if at >= len(haystack) {
 		return -1, -1, false
 	}
 
 	searchStart := at
-	minStart := at
+	minStart := at // Anti-quadratic guard
 
 	for {
+		// Find next suffix candidate starting from searchStart
 		pos := s.prefilter.Find(haystack, searchStart)
 		if pos == -1 {
 			return -1, -1, false
@@ -407,46 +265,73 @@ func (s *ReverseSuffixSearcher) findIndicesAtImpl(haystack []byte, at int, fwdCa
 		}
 
 		if s.matchStartZero {
-			// .* (AnyCharNotNL) cannot cross \n boundaries.
-			// Find the line containing the suffix candidate.
+			// `.*suffix`: .* (AnyCharNotNL) cannot cross \n boundaries, so the
+			// leftmost match lies on the first line that contains the suffix. It
+			// starts at the beginning of that line (or at 'at') and, .* being
+			// greedy, ends at the LAST suffix on the line.
 			lineStart := lineStartBefore(haystack, at, pos)
-			lineEnd := bytes.IndexByte(haystack[pos:], '\n')
-			var lineEndAbs int
-			if lineEnd == -1 {
-				lineEndAbs = len(haystack)
-			} else {
-				lineEndAbs = pos + lineEnd
+			lineEnd := len(haystack)
+			if nl := bytes.IndexByte(haystack[pos:], '\n'); nl != -1 {
+				lineEnd = pos + nl
 			}
-			// Find LAST suffix on this line for greedy match
-			lastPos := bytes.LastIndex(haystack[lineStart:lineEndAbs], s.suffixBytes)
-			if lastPos >= 0 {
-				matchEnd := lineStart + lastPos + s.suffixLen
-				if matchEnd > len(haystack) {
-					matchEnd = len(haystack)
-				}
-				return lineStart, matchEnd, true
+			lastPos := bytes.LastIndex(haystack[pos:lineEnd], s.suffixBytes)
+			if lastPos > 0 {
+				suffixEnd = pos + lastPos + s.suffixLen
 			}
-			return -1, -1, false
+			return lineStart, suffixEnd, true
 		}
 
+		// Use reverse DFA with anti-quadratic guard to decide whether a match ends here
 		matchStart := s.reverseDFA.SearchReverseLimited(revCache, haystack, at, suffixEnd, minStart)
-		if matchStart >= 0 {
-			matchEnd := s.forwardDFA.SearchAt(fwdCache, haystack, matchStart)
-			if matchEnd >= 0 {
-				return matchStart, matchEnd, true
-			}
-			return s.pikevm.SearchAt(haystack, matchStart)
-		}
 		if matchStart == lazy.SearchReverseLimitedQuadratic {
-			return s.pikevm.SearchAt(haystack, at)
+			// Quadratic behavior detected - one forward search decides the whole query
+			return s.searchSpan(haystack, at, -1, fwdCache, revCache)
+		}
+		if matchStart >= 0 {
+			// A match ends at suffixEnd and no match ends before it. A match that
+			// cannot contain '\n' therefore starts after the last '\n' before the
+			// candidate; in any case it starts at or after 'at', and not after
+			// matchStart.
+			from := at
+			if s.lineBounded {
+				from = lineStartBefore(haystack, at, pos)
+			}
+			return s.searchSpan(haystack, from, matchStart, fwdCache, revCache)
 		}
 
+		// Update anti-quadratic guard
 		minStart = suffixEnd
+
+		// Try next candidate
 		searchStart = pos + 1
 		if searchStart >= len(haystack) {
 			return -1, -1, false
 		}
 	}
+}
+
+// searchSpan returns the leftmost-first match that starts at or after 'from',
+// using the DFAs of the whole pattern: the unanchored forward DFA finds where the
+// leftmost-first match ends (greedy and lazy quantifiers honoured), the reverse
+// DFA anchored at that end finds where it starts.
+//
+// knownStart, if not negative, is a position at which a match is known to start:
+// the leftmost match then starts in [from, knownStart], and when both coincide
+// the reverse scan is not needed.
+func (s *ReverseSuffixSearcher) searchSpan(haystack []byte, from, knownStart int, fwdCache, revCache *lazy.DFACache) (start, end int, found bool) {
+	end = s.forwardDFA.SearchAt(fwdCache, haystack, from)
+	if end < 0 {
+		return -1, -1, false
+	}
+	if knownStart == from {
+		return from, end, true
+	}
+	start = s.reverseDFA.SearchReverse(revCache, haystack, from, end)
+	if start < 0 {
+		// The reverse DFA gave up (cache limits) - fall back to PikeVM
+		return s.pikevm.SearchAt(haystack, from)
+	}
+	return start, end, true
 }
 
 // IsMatch checks if the pattern matches using suffix prefilter + reverse DFA.
